@@ -43,10 +43,16 @@ var classNames = []string{"A", "B", "C"}
 var funcNames = []string{"fa", "fb", "fc"}
 var ifaceNames = []string{"IA", "IB"}
 
+// classes that can also be defined inside `namespace App;` (name "App\\A")
+var nsNames = []string{"A", "B"}
+
 func allNames() []Def {
 	var out []Def
 	for _, n := range classNames {
 		out = append(out, Def{"class", n})
+	}
+	for _, n := range nsNames {
+		out = append(out, Def{"class", "App\\" + n})
 	}
 	for _, n := range funcNames {
 		out = append(out, Def{"func", n})
@@ -76,6 +82,15 @@ func gen(r *verifsim.Rng, tier string) (any, hx.Sched) {
 			op.K = "def"
 			nd := 1 + r.Intn(2)
 			used := map[string]bool{}
+			if r.Intn(5) == 0 {
+				// one class declared inside `namespace App;`
+				op.Defs = []Def{{"class", "App\\" + verifsim.Pick(r, nsNames)}}
+				if r.Intn(6) == 0 {
+					op.Fault = verifsim.Pick(r, []string{"throw", "parse"})
+					op.FaultAfter = 1 // the namespaced snippet always puts its class before the fault
+				}
+				break
+			}
 			for d := 0; d < nd; d++ {
 				df := names[r.Intn(pool)]
 				if used[df.Name] {
@@ -87,9 +102,15 @@ func gen(r *verifsim.Rng, tier string) (any, hx.Sched) {
 			if r.Intn(6) == 0 {
 				op.Fault = verifsim.Pick(r, []string{"throw", "parse"})
 				op.FaultAfter = r.Intn(len(op.Defs) + 1)
+				if strings.HasPrefix(op.Defs[0].Name, "App\\") {
+					op.FaultAfter = 1 // the namespaced snippet always puts its class before the fault
+				}
 			}
 		case x < 7:
 			op.K = "obs"
+			if r.Intn(3) == 0 {
+				op.K = "nsobs" // short names resolved from inside `namespace App;`
+			}
 		case x < 9:
 			op.K = "shared"
 		default:
@@ -175,6 +196,17 @@ func (s *sys) vm(i int) data.VM {
 func snippetFor(defs []Def, tags []string, fault string, faultAfter int) string {
 	var b strings.Builder
 	b.WriteString("<?php\n")
+	if len(defs) == 1 && strings.HasPrefix(defs[0].Name, "App\\") {
+		short := strings.TrimPrefix(defs[0].Name, "App\\")
+		fmt.Fprintf(&b, "namespace App;\nclass %s { public function tag() { return %q; } }\n", short, tags[0])
+		if fault == "throw" {
+			b.WriteString("throw new \\Exception(\"injected\");\n")
+		}
+		if fault == "parse" {
+			b.WriteString("function broken( {\n")
+		}
+		return b.String()
+	}
 	for i, d := range defs {
 		if fault == "parse" && i == faultAfter {
 			b.WriteString("function broken( {\n")
@@ -194,6 +226,18 @@ func snippetFor(defs []Def, tags []string, fault string, faultAfter int) string 
 	if fault == "throw" {
 		b.WriteString("throw new Exception(\"injected\");\n")
 	}
+	return b.String()
+}
+
+// nsObserveScript resolves the SHORT names A and B from inside `namespace App;`:
+// App\A if this VM resolves it, otherwise the interpreter falls back to the global A.
+func nsObserveScript() string {
+	var b strings.Builder
+	b.WriteString("<?php\nnamespace App;\n$r = \"\";\n")
+	for _, n := range nsNames {
+		fmt.Fprintf(&b, "$r .= \"ns:%s=\" . ((class_exists(\"App\\\\%s\") || class_exists(\"%s\")) ? (new %s())->tag() : \"-\") . \";\";\n", n, n, n, n)
+	}
+	b.WriteString("__out($r);\n")
 	return b.String()
 }
 
@@ -466,6 +510,48 @@ func step(o *hx.Outcome, w *W, sy *sys, m *model, k int, op Op, log *[]string, o
 		m.maybe[op.VM-1] = table{}
 		o.Fault("vm_discard", 1)
 		*log = append(*log, fmt.Sprintf("%d discard vm%d", k, op.VM))
+	case "nsobs":
+		out, failed := sy.runOn(op.VM, nsObserveScript(), fmt.Sprintf("/verif/c12/nsobs%d.php", k))
+		*log = append(*log, fmt.Sprintf("%d nsobs vm%d -> %s %s", k, op.VM, out, failed))
+		if failed != "" {
+			o.Violate("C12/observation-failed/nsobs", fmt.Sprintf("step %d: resolving short class names inside namespace App on vm%d failed: %s (history: %s)", k, op.VM, failed, histStr(w, k)))
+			break
+		}
+		o.Probe("namespaced_short_name_observations", 1)
+		for _, seg := range strings.Split(strings.TrimSuffix(out, ";"), ";") {
+			name, val, ok := strings.Cut(strings.TrimPrefix(seg, "ns:"), "=")
+			if !ok {
+				continue
+			}
+			// allowed: App\name if this VM must resolve it; the global name if it cannot; either if uncertain
+			nsTags, nsMust := m.allowed(op.VM, "App\\"+name)
+			gTags, gMust := m.allowed(op.VM, name)
+			allowed := map[string]bool{}
+			must := false
+			switch {
+			case nsMust:
+				allowed, must = nsTags, true
+			case len(nsTags) > 0:
+				for t := range nsTags {
+					allowed[t] = true
+				}
+				for t := range gTags {
+					allowed[t] = true
+				}
+				must = gMust
+			default:
+				allowed, must = gTags, gMust
+			}
+			if val == "-" {
+				if must {
+					o.Violate("C12/lost/class/script/nsobs", fmt.Sprintf("after step %d, code in namespace App on vm%d cannot resolve the short name %s although it is defined for that VM (expected one of %v) (history: %s)", k, op.VM, name, keys(allowed), histStr(w, k)))
+				}
+				continue
+			}
+			if !allowed[val] {
+				o.Violate("C12/leak/class/script/nsobs", fmt.Sprintf("after step %d, code in namespace App on vm%d resolves the short name %s to %s (allowed here: %v) (history: %s)", k, op.VM, name, val, keys(allowed), histStr(w, k)))
+			}
+		}
 	case "obs", "shared":
 		var out, failed string
 		if op.K == "obs" {
